@@ -123,7 +123,12 @@ def trace_state(model):
     return out
 
 
+def trace_fingerprint(model):
+    return [(list(n_), [str(x) for x in i_], None if v_ is None else v_.tolist()) for n_, i_, v_ in trace_state(model)]
+
+
 def check_case(case):
+    left_behind = []
     T_, U_ = make(case), make(case)
     n = case.get('n', 3)
     res = Result(classes=['calls=%d' % len(case['calls'])])
@@ -133,6 +138,8 @@ def check_case(case):
         if isinstance(tr, dict):
             tr = tuple(tr['tuple'])
         for op in c.get('pre') or ():
+            if op[0] == 'copy':
+                left_behind.append((T_, trace_fingerprint(T_)))       # the original stays alive and must not hear of the copy's solves
             T_, U_ = apply_pre(T_, op), apply_pre(U_, op)
             nontrivial = True
         before_cells = [{nm: float(U_[nm][p]) for nm in VARS} for p in range(n)]
@@ -164,6 +171,10 @@ def check_case(case):
         if max(its) >= 2 or ow[1] is not None or any(s in 'FES' for s in map(str, U_.status)):
             nontrivial = True
         after_trace = trace_state(T_)
+        for obj_, fp in left_behind:
+            if trace_fingerprint(obj_) != fp:
+                res.fail('copy/trace-of-the-original-changed', f'{detail}: a traced solve of the copy changed the traces of the model it was copied from')
+                return res
         res.tag('trace:' + type(tr).__name__)
         if not tr:
             if any(a[1] != b[1] for a, b in zip(before_trace, after_trace)):
